@@ -202,6 +202,22 @@ static std::string app_packets(const Args& a)
     r.push_back((long long)current_packet.size());
     return join(r);
 }
+// clock_free <est units> <clk units> <count>...(triples): the demodulator's ClockRecovery with sample_estimate_ / clock_estimate_ / count_ set
+// (units of 2^-20 sample), then the free-running update(): -> the int8 sample_index_ per triple
+static std::string clock_free(const Args& a)
+{
+    std::vector<long long> r;
+    for (size_t i = 0; i + 2 < a.size(); i += 3) {
+        mobilinkd::ClockRecovery<float, 10> c;
+        c.sample_estimate_ = float(double(a[i]) / 1048576.0);
+        c.clock_estimate_ = float(double(a[i + 1]) / 1048576.0);
+        c.count_ = size_t(a[i + 2]);
+        c.update();
+        r.push_back((long long)c.sample_index_);
+    }
+    return join(r);
+}
+
 // ax25 bytes...: mobilinkd::ax25_frame on an arbitrary byte string -> "D dest | S src | R n | rep ... | T type | P pid | I info" (bytes as numbers)
 static std::string ax25_op(const Args& a)
 {
@@ -287,6 +303,7 @@ static std::string handle(const std::string& op, const Args& a)
     if (op == "app_call") return app_call(a);
     if (op == "app_bert") return app_bert(a);
     if (op == "ax25") return ax25_op(a);
+    if (op == "clock_free") return clock_free(a);
     return "bad-op";
 }
 
